@@ -25,6 +25,12 @@ CHECKS = {
     text="Every ordered conversion pair of 19 typed nodes (f32 and f64, with and without alpha) and the clamp family are run on the boundary lattice of each space: every component at min, max, zero, a billionth of the range inside either bound and at quarter points, hues at every sector edge and at +-180/360. TLC decides from the documented bounds whether the recorded input is in the statement's domain (on a bound, zero, or at least 1e-9 of the range away) and then requires a finite, panic-free result.",
     ref="DESIGN.md section 4 C07",
     note=TRUST + "; documented bounds table in spec/Types.tla; operators, blends, differences and CAM16 are added to this check's surface as their drivers are built (see coverage.explanation of the evidence for what a run covered)"),
+ "C11": dict(
+    technique="explicit TLA+ model of hues (Hue.tla: exact arithmetic modulo 360 on the dyadic each float denotes, no trigonometry) checked exhaustively by TLC on integer angles and all 8-bit hues; TLC trace validation of recorded calls of the hue API on exact values",
+    category="model_checking",
+    text="TLC checks Hue.tla on all integer angles in +-2000 (thorough +-100000) and all 256 8-bit hues: normal forms exist and are unique up to the ends, equality is an equivalence compatible with whole turns, the 8-bit map is onto with wrap-around, and every relation rejects wrong answers (one turn off, one degree off, wrong radian factor). Every recorded call of the hue API (five hue types x f32/f64: signed/unsigned normal form, PartialEq incl. whole-turn shifts, radians, cartesian round trip, 8-bit conversion both ways, Add/Sub; 51k events quick, 546k thorough incl. a 19M-pattern f32 sweep compressed losslessly for the range clause) is validated by TLC against the model on the exact values.",
+    ref="DESIGN.md section 4 C11",
+    note=TRUST + "; exhaustive for integer angles x whole-turn shifts and all 256 codes, boundary/ulp neighbours of multiples of 180, powers of two and subnormals, seeded random elsewhere; tolerance 8 ulp of the stored angle (largest deviation on the pinned tree: 1 ulp); f32 cannot reveal degree/radian factor errors below 2^-20; SIMD hues belong to C17"),
  "C13": dict(
     technique="TLA+ guard stack machine over symbolic conversion terms (InPlace.tla); TLC enumerates all guard programs, replayed on real buffers; TLC trace validation (in-place arrays bit-identical to the term evaluated out of place)",
     category="model_checking",
@@ -37,6 +43,12 @@ CHECKS = {
     text="For HSV/HSL/HWB the containment is a theorem of the integer hexcone model, checked by TLC for every sector, sector boundary and lattice value (one state per point). For all seven spaces the real conversions of a cylinder lattice (hues every 15 degrees - 3 in thorough - plus sector edges and the Oklab hues of the sRGB primaries and secondaries; saturation/value/lightness/whiteness/blackness including the bounds and a billionth inside) to sRGB, and of an RGB lattice plus random and boundary colours into each space and back, are judged by TLC: components in [-tol, 1+tol], bounds kept up to the slack, round trip within 2^-16 (f64) / 2^-13 (f32). Tolerances are named in TraceGamut.tla (rounding only for the hexcone spaces; about twice the pinned tree's approximation error for Ok* and HSLuv) and the evidence reports the largest excursion seen.",
     ref="DESIGN.md section 4 C15",
     note=TRUST + "; tolerance table of TraceGamut.tla; known findings C15-hsluv-white-saturation and C15-f32-ok-blue-edge"),
+ "C20": dict(
+    technique="TLA+ model of the serde data model as a tree type (Serde.tla: Ser from a type table, the alpha-flattening rule per tree shape, De as partial inverse, as_array/as_uint); TLC checks De(Ser(v))=v, permutation invariance, flatness and absence of metadata exhaustively and emits every deserializer case, replayed into palette through a recording Deserializer, serde_json, ron and a compact stream; TLC trace validation of every recorded tree, JSON text shape and round trip",
+    category="model_checking",
+    text="All 20 serializable colour structs (plus 3 harness structs of other arities) x plain/Alpha/PreAlpha x f32/f64 (u8/u16 for Rgb, Luma). Extremes in every position plus random finite values are serialized through a recording serializer (exact data-model calls incl. announced lengths), serde_json and ron (struct, named, array and holder forms). TLC requires the tree to equal Ser of the type table with alpha flattened at the same level, the JSON key set = declared fields (+alpha), depth 1, hue a bare number, no standard/white_point/meta, and bit-identical round trips (serde_json+f64: 16 ulp). Every TLC-enumerated case (all field permutations, map/seq/tuple forms, missing alpha, missing field, wrong arity, unknown field; with/without the optional-alpha helper) must end as De prescribes. as_array/as_uint must equal the cast array / packed integer. Quick: 2.6 k cases + 54 k events; thorough: 18 k cases + 1.35 M events.",
+    ref="DESIGN.md section 4 C20",
+    note=TRUST + "; the harness' recording Serializer/Deserializer and compact token stream as faithful serde formats; serde/serde_json/ron as the meaning of 'the format'; harness-computed ulp distance; unknown extra fields, surplus sequence elements, duplicate keys and string-keyed maps under Alpha are left open; known finding C20-alpha-struct-compact-stream"),
  "C18": dict(
     technique="TLA+ reference machine (Soa.tla); TLC enumerates all operation histories, replayed on the real collections; TLC trace validation of every recorded call",
     category="model_checking",
